@@ -79,6 +79,7 @@ type heldIter struct {
 	fin     func() error
 	release func()
 	epoch   int
+	orphan  bool
 }
 
 type lworld struct {
@@ -89,7 +90,8 @@ type lworld struct {
 	disk   common.Hash
 	// genDisk: the disk layer is still the one the initial generation produced
 	genDisk bool
-	epoch   int // tree changes
+	orphan  map[common.Hash]bool // live layers whose parent pointer leads to pre-flatten objects
+	epoch   int                  // tree changes
 	slots  [4]*heldIter
 }
 
@@ -109,7 +111,12 @@ func (lw *lworld) live(root common.Hash) bool {
 }
 
 func (lw *lworld) selLive(sel int) common.Hash {
-	lr := lw.liveRoots()
+	var lr []common.Hash
+	for _, r := range lw.liveRoots() {
+		if !lw.orphan[r] { // mutations never build on / cap through orphan-linked layers
+			lr = append(lr, r)
+		}
+	}
 	if sel <= 0 {
 		return lr[len(lr)-1]
 	}
@@ -146,7 +153,15 @@ func flatDiff(p, c *state) (map[common.Hash][]byte, map[common.Hash]map[common.H
 }
 
 // capModel mirrors snapshot.Tree.Cap for small layers (the accumulator layer
-// never reaches its memory limit, so it stays an in-memory diff layer).
+// never reaches its memory limit, so it stays an in-memory diff layer unless the
+// disk layer is still the one produced by the initial generation).
+//
+// Let diff be the layer `n-1` below root and P its parent. Cap flattens P and
+// every diff layer below it into one layer with P's root; the layers below P go
+// stale, and everything hanging off them is removed. Every descendant of P stays
+// in the tree: those below `diff` healthy (diff is re-linked), the OTHER children
+// of P with their subtrees still pointing at the pre-flatten object of P, whose
+// parent is stale ("orphan": the legacy twin of pathdb's stale-parent-link).
 func (lw *lworld) capModel(root common.Hash, n int) (expectErr bool) {
 	if root == lw.disk {
 		return true
@@ -154,6 +169,7 @@ func (lw *lworld) capModel(root common.Hash, n int) (expectErr bool) {
 	if n == 0 {
 		lw.disk, lw.genDisk = root, false
 		lw.parent = map[common.Hash]common.Hash{}
+		lw.orphan = map[common.Hash]bool{}
 		lw.epoch++
 		return false
 	}
@@ -169,26 +185,8 @@ func (lw *lworld) capModel(root common.Hash, n int) (expectErr bool) {
 	if P == lw.disk {
 		return false
 	}
-	if lw.genDisk {
-		// The disk layer produced by the initial generation keeps its (closed)
-		// cancel channel, which Tree.cap takes for "a snapshot is being generated":
-		// the accumulator is then always merged into the disk. Only diff and its
-		// descendants survive on top of the new disk layer P.
-		keep := map[common.Hash]common.Hash{}
-		for x, px := range lw.parent {
-			for c := x; c != lw.disk; c = lw.parent[c] {
-				if c == diff {
-					keep[x] = px
-					break
-				}
-			}
-		}
-		keep[diff] = P
-		lw.parent, lw.disk, lw.genDisk = keep, P, false
-		lw.epoch++
-		return false
-	}
-	if lw.parent[P] == lw.disk {
+	persist := lw.genDisk // the generated disk layer keeps its cancel channel: cap always merges into disk then
+	if lw.parent[P] == lw.disk && !persist {
 		return false // nothing below to flatten into
 	}
 	stale := map[common.Hash]bool{}
@@ -196,26 +194,44 @@ func (lw *lworld) capModel(root common.Hash, n int) (expectErr bool) {
 		stale[a] = true
 	}
 	keep := map[common.Hash]common.Hash{}
+	orphan := map[common.Hash]bool{}
 	for x, px := range lw.parent {
 		if x == P {
 			continue
 		}
-		ok := !stale[x]
-		viaDiff := false
-		for c := x; ok && c != lw.disk; c = lw.parent[c] {
+		viaDiff, underP, bad := false, false, stale[x]
+		for c := x; !bad && c != lw.disk; c = lw.parent[c] {
 			if c == diff {
 				viaDiff = true
 			}
-			if stale[c] || (c == P && !viaDiff) {
-				ok = false
+			if c == P {
+				underP = true
+				break
+			}
+			if stale[c] {
+				bad = true
 			}
 		}
-		if ok {
+		switch {
+		case bad:
+		case underP:
 			keep[x] = px
+			if !viaDiff || lw.orphan[x] {
+				orphan[x] = true
+			}
+		case !persist: // hangs off the (unchanged) disk layer through another branch
+			keep[x] = px
+			if lw.orphan[x] {
+				orphan[x] = true
+			}
 		}
 	}
-	keep[P] = lw.disk
-	lw.parent = keep
+	if persist {
+		lw.disk, lw.genDisk = P, false
+	} else {
+		keep[P] = lw.disk
+	}
+	lw.parent, lw.orphan = keep, orphan
 	lw.epoch++
 	return false
 }
@@ -242,7 +258,7 @@ func (lw *lworld) checkLayers(when string) *simcore.Violation {
 func (lw *lworld) open(rd Read) (*heldIter, error) {
 	st := lw.selAny(rd.Root)
 	k := &lw.rn.p.K
-	h := &heldIter{rd: rd, st: st, acct: rd.A % k.Accounts, epoch: lw.epoch}
+	h := &heldIter{rd: rd, st: st, acct: rd.A % k.Accounts, epoch: lw.epoch, orphan: lw.orphan[st.root]}
 	root := st.root
 	switch rd.Kind {
 	case 4, 6:
@@ -305,9 +321,50 @@ func (h *heldIter) drain(n int) bool {
 
 // judge compares what the iterator delivered with the model; ended: it reported exhaustion.
 func (lw *lworld) judge(h *heldIter, ended bool) *simcore.Violation {
-	kindName := [...]string{"", "", "", "", "account-iterator", "storage-iterator", "binary-account-iterator", "binary-storage-iterator"}[h.rd.Kind]
+	v := lw.judgeInner(h, ended)
+	if v != nil && (h.orphan || lw.orphan[h.st.root]) {
+		// the iterated layer hangs off the pre-flatten object of a flattened layer:
+		// its stack contains stale layers whose entries are dropped silently
+		return lw.rn.keyed(v.Oracle, "legacy-stale-parent-link:iterator", false,
+			"%s\n(the iterated root is a fork child of a layer that Tree.Cap flattened: diffLayer.flatten marks only the lower layer stale and returns a new object; other children of the flattened layer stay in Tree.layers with their parent pointer on the old object, whose parent is stale)", v.Msg)
+	}
+	if v != nil && lw.epoch != h.epoch && h.rd.Kind <= 5 && v.Oracle != "iterator-failed" {
+		// a layer of the iterated stack was flattened while the merged iterator was
+		// open: diffAccountIterator/diffStorageIterator.Next notice the stale layer
+		// and stop with ErrSnapshotStale, but fastIterator.next treats that as
+		// "exhausted", drops the sub-iterator without looking at its Error() and
+		// goes on with the rest: entries are skipped instead of the iteration failing
+		return lw.rn.keyed(v.Oracle, "legacy-fast-iterator-skips-stale-layer", false,
+			"%s\n(a layer of the stack went stale while the iterator was open; the merged iterator dropped its sub-iterator silently and kept going)", v.Msg)
+	}
+	return v
+}
+
+func (lw *lworld) judgeInner(h *heldIter, ended bool) *simcore.Violation {
+	kindName :=[...]string{"", "", "", "", "account-iterator", "storage-iterator", "binary-account-iterator", "binary-storage-iterator"}[h.rd.Kind]
 	changed := lw.epoch != h.epoch
 	where := fmt.Sprintf("legacy snapshot %s at state #%d root %x (account %d, seek=%d, tree changed since open=%v)", kindName, h.st.idx, h.st.root[:4], h.acct, h.rd.Seek, changed)
+	if changed && h.rd.Kind >= 6 {
+		// The binary iterator is a test-only helper of the tree under test (no
+		// production caller): when a lower layer goes stale its sub-iterator ends
+		// silently (only the top layer's value loads set Error), so entries may be
+		// skipped after a tree change. Only what it delivered is judged then:
+		// ascending, and every value the requested state's.
+		wantMap := map[string][]byte{}
+		for _, w := range h.want {
+			wantMap[string(w[0])] = w[1]
+		}
+		for i, g := range h.got {
+			if w, ok := wantMap[string(g[0])]; !ok || !eq(w, g[1]) {
+				return simcore.Violf("iterator-wrong-value", "%s: delivered entry %x = %x, the state holds %x there", where, g[0][:4], g[1], w)
+			}
+			if i > 0 && bytes.Compare(h.got[i-1][0], g[0]) >= 0 {
+				return simcore.Violf("iterator-wrong-sequence", "%s: entries %d and %d are not ascending", where, i-1, i)
+			}
+		}
+		lw.rn.probe("legacy-binary-iterator-after-tree-change")
+		return nil
+	}
 	for i, g := range h.got {
 		if i >= len(h.want) {
 			return simcore.Violf("iterator-extra-entry", "%s: entry %d (%x) beyond the %d entries of the state", where, i, g[0][:4], len(h.want))
@@ -457,7 +514,7 @@ func runLegacy(t *testing.T, p *Plan) *simcore.Result {
 	res := simcore.NewResult()
 	rn := newRunner(p, nil, res)
 	kv := simdisk.NewSimKV(nil)
-	lw := &lworld{rn: rn, kv: kv, parent: map[common.Hash]common.Hash{}, disk: types.EmptyRootHash, genDisk: true}
+	lw := &lworld{rn: rn, kv: kv, parent: map[common.Hash]common.Hash{}, orphan: map[common.Hash]bool{}, disk: types.EmptyRootHash, genDisk: true}
 	disk := rawdb.NewDatabase(kv)
 	if v := guard("legacy-open", func() {
 		tdb := triedb.NewDatabase(disk, nil)
